@@ -155,3 +155,57 @@ def check_ownership(ctx, only=None, rule='EFF-2'):
                 pass
             else:
                 ctx.ok(rule, inst, where(fi, node), 'applied to a copy yielded by FitInfoFile.__iter__ (or a freshly unpickled record)')
+
+
+# ---------------------------------------------------------------- API rules (E7)
+
+def api_rule(ctx, module_names, min_chains=0, rule='API-1'):
+    """Every external attribute chain / imported name used in the given repo modules resolves in the
+    installed environment (optional imports under try/except ImportError are skipped)."""
+    from .. import extapi
+    total = 0
+    for mn in module_names:
+        m = ctx.repo.module(mn)
+        chains = extapi.module_chains(m)
+        bad = 0
+        seen = set()
+        for dotted, node, fn, optional in chains:
+            if optional:
+                continue
+            total += 1
+            okk, why = extapi.resolve_dotted(dotted)
+            if not okk:
+                key = (dotted, fn)
+                if key in seen:
+                    continue
+                seen.add(key)
+                bad += 1
+                ctx.violation(rule, '%s uses %s' % (fn or m.name, dotted), '%s:%d %s' % (m.path, node.lineno, fn or '<module>'),
+                              'external name does not exist in the installed environment: %s' % why, dotted)
+        if not bad:
+            ctx.ok(rule, 'module %s' % m.name, '%s:1 <module>' % m.path, '%d external chains resolve' % len([c for c in chains if not c[3]]))
+    ctx.analysed['external_chains'] += total
+    if total < min_chains:
+        ctx.error('%s analysed %d external chains, below the frozen minimum %d' % (rule, total, min_chains))
+    return total
+
+
+def api_literal_rule(ctx, module_names, rule='API-2', min_sites=0):
+    from .. import extapi
+    doms = extapi.literal_domains()
+    n = 0
+    for mn in module_names:
+        m = ctx.repo.module(mn)
+        for dotted, kwn, val, call, fn in extapi.keyword_literal_sites(m):
+            if (dotted, kwn) in doms:
+                n += 1
+                dom, src = doms[(dotted, kwn)]
+                inst = '%s(%s=) in %s' % (dotted, kwn, fn)
+                loc = '%s:%d %s' % (m.path, call.lineno, fn)
+                if val in dom:
+                    ctx.ok(rule, inst, loc, 'literal %r is in the accepted domain %s (%s)' % (val, sorted(dom), src))
+                else:
+                    ctx.violation(rule, inst, loc, 'literal %r is rejected by the library: accepted %s (%s)' % (val, sorted(dom), src), '%s=%r' % (kwn, val))
+    if n < min_sites:
+        ctx.error('%s matched %d literal-domain sites, below the minimum %d' % (rule, n, min_sites))
+    return n
